@@ -482,6 +482,11 @@ NextPin:
 			pIn.Key = "0"
 		}
 
+		if pIn.Value == 0 {
+			// SQLite stores -0.0 as 0.0, so hash what will be read back
+			pIn.Value = 0
+		}
+
 		for j, pDb := range dbPoints {
 			if pIn.Type == pDb.Type && pIn.Key == pDb.Key {
 				// found a match
@@ -663,6 +668,11 @@ NextPin:
 
 		if pIn.Key == "" {
 			pIn.Key = "0"
+		}
+
+		if pIn.Value == 0 {
+			// SQLite stores -0.0 as 0.0, so hash what will be read back
+			pIn.Value = 0
 		}
 
 		for j, pDb := range dbPoints {
